@@ -949,6 +949,10 @@ THEOREMS = [
     'C19.call_defaults', 'C19.ctor_render', 'C19.ctor_render_text', 'C19.read_then_flatten_all',
     # round 6 — flattenTables runs the merge loop of the source; numeric tables need no quietness hypothesis
     'C19.flatten_uses_merge_loop', 'C19.quiet_of_no_capital', 'C19.numeric_row_quiet',
+    # round 6 — the refusals of flatten as iffs; read_tables about the regenerated functions; Log(a); read(b); input forms
+    'C19.flatten_refusals_iff', 'C19.gen_read_tables', 'C19.read_sequence_default', 'C19.read_input_forms',
+    # round 6 — printer ∘ reader = id on the simple grammar (numeric rows: no hypothesis left on the data)
+    'C19.ctor_grammar',
 ]
 PARTIAL = {
     'input decision': 'which of text / path / bytes / stream an input is taken as is decided by '
@@ -2336,7 +2340,8 @@ def model_requests(logs, ops):
             # signatures), not the harness's
             a = '-' if append is None else ('1' if _appends(append) else '0')
             if mode in TEXT_STREAM_MODES:
-                where.append(None)
+                req.append(f'readts {a}')       # the model's answer for that input form (readInput … .textStream)
+                where.append(len(req) - 1)
             elif mode in STREAM_MODES:
                 if reuse and (k, mode) in ids:
                     sid = ids[(k, mode)]
